@@ -16,7 +16,8 @@ let xstandalone (line : string) : string =
       let (d, errs) = xb_from_ast (Some s) c.xc_ast in
       fuel := !fuel && xv_fuel_ok d;
       b (errs = [] && xv_standalone_valid d) in
-  "alone=" ^ b alone ^ " typed=" ^ typed ^ " fuel=" ^ (if !fuel then "ok" else "out")
+  let closed = match c.xc_schema with None -> "-" | Some s -> b (xs_closedb s) in
+  "alone=" ^ b alone ^ " typed=" ^ typed ^ " closed=" ^ closed ^ " fuel=" ^ (if !fuel then "ok" else "out")
   ^ " rules=" ^ b (e0 = []) ^ b (xv_operation_definitions d0) ^ b (xv_fragments_used d0) ^ b (xv_defer d0)
 
 let families = [ ("xstandalone", xstandalone) ]
